@@ -50,3 +50,42 @@ pub fn run_src(path: &str, stack: &[u64], prove: bool, kernel: Option<&str>) {
         println!("C01 verified: {:?}", rep.hist.get("verified"));
     }
 }
+
+/// Prints, for every clock, the iterator's view next to the trace row (depth and top elements).
+pub fn iter_src(path: &str, stack: &[u64]) {
+    use crate::tview::*;
+    let src = std::fs::read_to_string(path).expect("read src");
+    let case = Case::new(src).with_stack(stack);
+    let prog = match case.assemble() {
+        AsmOutcome::Ok(p) => p,
+        _ => {
+            println!("assembly failed");
+            return;
+        }
+    };
+    let trace = match case.execute(&prog) {
+        ExecOutcome::Ok(t) => t,
+        _ => {
+            println!("exec failed");
+            return;
+        }
+    };
+    let tv = TV::new(&trace);
+    let it = processor::execute_iter(&prog, case.stack_inputs(), case.host());
+    for st in it {
+        let st = st.unwrap();
+        let t = st.clk as usize;
+        let s: Vec<u64> = st.stack.iter().map(|x| vm_core::StarkField::as_int(x)).collect();
+        println!(
+            "clk {:3} op {:>10} | iter len {:2} top3 {:?} deep {:?} | trace b0 {:2} top3 {:?} next-op {}",
+            t,
+            st.op.map(|o| format!("{o}")).unwrap_or_default(),
+            s.len(),
+            &s[..3],
+            &s[16.min(s.len())..],
+            tv.get(B0, t),
+            &tv.stack_top(t)[..3],
+            crate::tair::op_name(tv.op(t))
+        );
+    }
+}
